@@ -6,6 +6,7 @@ import (
 	"sort"
 	"strings"
 	"time"
+	"unicode/utf8"
 
 	"go.lsp.dev/protocol"
 
@@ -844,8 +845,13 @@ func fuzzyMatchScoreBySegments(accountName, pattern string) int {
 
 	segments := strings.Split(accountName, ":")
 	bestScore := 0
+	patternLen := utf8.RuneCountInString(pattern)
 
 	for _, segment := range segments {
+		// a segment shorter than the pattern cannot contain it
+		if len(segment) < patternLen {
+			continue
+		}
 		if score := fuzzyMatchScore(segment, pattern); score > bestScore {
 			bestScore = score
 		}
